@@ -19,6 +19,11 @@ CHECKS = {
             "Seeded search over (i) byte images with embedded/foreign markers, corrupted, truncated and near-maximum messages, parsed from the whole slice (reference) and through LowMarkBufReader geometries x read schedules down to 1 byte and an adversarial schedule that stops 0..7 bytes after each message, plus suffix runs; (ii) random fill/consume/read/seek histories on LowMarkBufReader against a position model (exact bytes, low-mark look-ahead until EOF, no early EOF). Sampling, not proof.",
             "The whole-slice parse is the reference; I/O errors are outside the quantifier; a refused seek is fine, wrong bytes after an accepted seek are a violation.",
             "DESIGN.md §6 C04"),
+    "C20": ("streamsim", "exploration",
+            "deterministic simulation: model-based read/seek histories over scripted short-read volumes; sandboxed extraction with canary surroundings",
+            "Seeded search over (i) splits of a byte string into 1-6 volumes (empty ones included), each behind a scripted short-read source, driven by random read/seek histories and compared after every operation with std::io::Cursor over the concatenation (data, positions, error/ok of every seek); (ii) generated zip archives (nested dirs, hostile '..'/absolute names, odd characters, empty members; single file or multi-volume on disk) extracted through the real extract_archives() with generated glob patterns into a temp dir inside a sandbox whose parent, siblings and pre-existing neighbour files are scanned afterwards. Sampling, not proof.",
+            "Cursor is the reference for 'a single file'; the glob crate decides pattern matching; cancellation is only injected before extraction starts (no seam inside extract_to_dir's loop); member names that denote a directory ('x/..') are outside the input space.",
+            "DESIGN.md §6 C20"),
 }
 
 NOT_APPLICABLE = {
